@@ -155,7 +155,7 @@ def lean_audit(pid, modules):
         rc, o = sh(["lake", "env", "lean", apath], cwd=LEAN, timeout=1200)
     res["output"] += o
     cur = None
-    for line in o.replace("\n  ", " ").split("\n"):
+    for line in re.sub(r"\n[ \t]+", " ", o).split("\n"):
         m = re.match(r"'(\S+)' depends on axioms: \[(.*)\]", line)
         if m:
             res["axioms"][m.group(1)] = [a.strip() for a in m.group(2).split(",")]
